@@ -481,3 +481,105 @@ func (r *R) onlyWhenCall(rule string, fn *ssa.Function, target NM, callee string
 	r.Hold(rule, construct, r.fpos(fn), "control-dependent on the predicate")
 	return true
 }
+
+// condReadsField: the If condition v reads (through comparisons and loads) a struct field called name.
+func condReadsField(v ssa.Value, name string, d int) bool {
+	if d > 4 || v == nil {
+		return false
+	}
+	if f := ssax.FieldOf(v); f != nil && f.Name() == name {
+		return true
+	}
+	switch x := v.(type) {
+	case *ssa.BinOp:
+		return condReadsField(x.X, name, d+1) || condReadsField(x.Y, name, d+1)
+	case *ssa.UnOp:
+		return condReadsField(x.X, name, d+1)
+	}
+	return false
+}
+
+// innermostLoopHeader returns the header of the innermost natural loop containing b, or nil.
+func innermostLoopHeader(b *ssa.BasicBlock) *ssa.BasicBlock {
+	reaches := func(from, to *ssa.BasicBlock) bool {
+		seen := map[*ssa.BasicBlock]bool{}
+		var dfs func(x *ssa.BasicBlock) bool
+		dfs = func(x *ssa.BasicBlock) bool {
+			if x == to {
+				return true
+			}
+			if seen[x] || !to.Dominates(x) {
+				return false
+			}
+			seen[x] = true
+			for _, s := range x.Succs {
+				if dfs(s) {
+					return true
+				}
+			}
+			return false
+		}
+		for _, s := range from.Succs {
+			if dfs(s) {
+				return true
+			}
+		}
+		return false
+	}
+	for h := b; h != nil; h = h.Idom() {
+		if reaches(b, h) {
+			return h
+		}
+	}
+	return nil
+}
+
+// accumulatorsIndependent: inside a loop, an iteration that updates the accumulator field a still evaluates
+// the test of the sibling accumulator field b (before or after): the two are running extrema of the same
+// sequence and one value may move both (the first one always does).
+func (r *R) accumulatorsIndependent(rule string, fn *ssa.Function, a, b, why string) {
+	if fn == nil {
+		return
+	}
+	construct := fmt.Sprintf("%s: an iteration that updates %s also tests %s", ssax.FuncName(fn), a, b)
+	n := 0
+	for _, blk := range fn.Blocks {
+		for _, in := range blk.Instrs {
+			st, ok := in.(*ssa.Store)
+			if !ok {
+				continue
+			}
+			if f := ssax.FieldOf(st.Addr); f == nil || f.Name() != a {
+				continue
+			}
+			h := innermostLoopHeader(blk)
+			if h == nil {
+				continue
+			}
+			n++
+			isTest := func(x ssa.Instruction) bool {
+				iff, ok := x.(*ssa.If)
+				return ok && condReadsField(iff.Cond, b, 0)
+			}
+			before := false
+			for _, tb := range fn.Blocks {
+				if tb != h && h.Dominates(tb) && tb.Dominates(blk) && tb != blk && isTest(tb.Instrs[len(tb.Instrs)-1]) && innermostLoopHeader(tb) == h {
+					before = true
+				}
+			}
+			if before {
+				continue
+			}
+			again := func(x ssa.Instruction) bool { return x == h.Instrs[0] || ssax.IsReturn(x) }
+			if tgt, path, found := (ssax.Search{Target: again, Avoid: isTest}).From(fn, in); found {
+				r.Violate(rule, construct, r.pos(in), fmt.Sprintf("after %s is updated at %s the iteration can end (%s, blocks %s) without the test of %s: %s", a, r.pos(in), r.pos(tgt), blocksStr(path), b, why))
+				return
+			}
+		}
+	}
+	if n == 0 {
+		r.Undecide(rule, construct, r.fpos(fn), "no in-loop store to "+a+" found")
+		return
+	}
+	r.Hold(rule, construct, r.fpos(fn), fmt.Sprintf("%d in-loop update site(s)", n))
+}
